@@ -129,8 +129,8 @@ func (c *gctx) class() *Expr {
 			}
 		}
 	}
-	if c.cfg.Unicode && c.chance(1, 6) {
-		e.UClass = append(e.UClass, []string{"L", "Lu", "Nd", "Ll"}[c.r.Intn(4)])
+	if c.cfg.Unicode && c.chance(1, 3) {
+		e.UClass = append(e.UClass, []string{"L", "Lu", "Nd", "Ll", "Latin", "Greek"}[c.r.Intn(6)])
 	}
 	if c.cfg.Wide && c.chance(1, 3) {
 		// several Unicode classes, so that classes merged by the optimizer share some
